@@ -45,6 +45,38 @@ func makeCnfCase(r *Rng, cnf [][]int, extraVars int) CnfCase {
 	return c
 }
 
+// genUnitGadgets: independent pairs (x v y)(x v -y) (either polarity of x): whichever way the search
+// decides, half of the pairs end in a conflict whose learned clause is a unit, so that the database of
+// learned clauses is still empty when its first reduction falls due (learned-clause limit 4 or 16; with
+// the default limit of 2000 this needs some 5000 pairs: thorough tier only).
+func genUnitGadgets(r *Rng, tier string) CnfCase {
+	g := r.Range(6, 60)
+	if tier == "thorough" && r.Chance(1, 30) {
+		g = r.Range(4500, 6000)
+	}
+	var cnf [][]int
+	for i := 0; i < g; i++ {
+		x, y := 2*i+1, 2*i+2
+		if r.Bool() {
+			x = -x
+		}
+		cnf = append(cnf, []int{x, y}, []int{x, -y})
+	}
+	if r.Bool() {
+		cnf = shuffleCnf(r, cnf)
+	}
+	c := makeCnfCase(r, cnf, 0)
+	if g > 100 {
+		c.NbMax, c.Certified = 0, false
+		if c.Front == "dimacs" {
+			c.Front, c.Text = "slice", ""
+		}
+	} else if c.NbMax == 0 {
+		c.NbMax = 4
+	}
+	return c
+}
+
 func cnfGens() []Gen {
 	return []Gen{
 		{Name: "tiny-messy", Weight: 30, Make: func(r *Rng, tier string) interface{} {
@@ -179,6 +211,7 @@ func init() {
 		Rule: "CNF formulas from seeded generators (messy tiny/small formulas with empty, unit, duplicate-literal, tautological and repeated clauses and unused declared variables; uniform 2/3-SAT near threshold with 5..70 variables; pigeonhole; parity chains; implication chains of 4..40 steps written against the direction of propagation; a 3-SAT part plus four clauses of more than a thousand literals), each through one front-end (ParseSlice / ParseSliceNb / ParseCNF with free DIMACS layout) and one configuration (certificate on/off x learned-clause limit default/4/16). A case is non-trivial when parsing left the status undetermined so that the CDCL search ran; distinct = distinct (formula, front-end, configuration).",
 		Gens:    cnfGens(),
 		Slices:  []SliceRef{{"XQUEUE", 600, 20000}, {"XWATCH", 500, 20000}},
+		Extra:   []ExtraGen{{Gen{Name: "unit-learning-gadgets", Make: func(r *Rng, tier string) interface{} { return genUnitGadgets(r, tier) }}, 40, 600}},
 		Run:     func(o *Oracle, d json.RawMessage, oc *Outcome) { runCnfCase(o, d, oc, "C01") },
 		Cases:   defCases(2500, 40000),
 		Timeout: defDur(20*time.Second, 60*time.Second),
